@@ -20,12 +20,12 @@ ASSUMPTIONS = ["thread interleavings are sampled (yield injection + repetition),
                "besides the probe-level runs, 24 (quick) / 960 (thorough) runs, with thread switches injected inside the dispatchers, go through the library's real socket and asyncore dispatchers over loopback TCP",
                "senders start after the handshake completed, as applications do (the handshake thread's own writes are covered by C04)"]
 REQUIRED = ["core_stack_other_logins", "core_stack_runs", "core_stack_ok", "real_big_cases", "real_big_ok", "real_big:socket", "real_big:asyncore", "real_backlog_cases", "real_backlog_ok", "real_backlog:local-disconnect", "real_backlog:peer-reset", "runs", "stanzas_sent", "stanzas_decrypted", "interleaved_runs", "yields_injected", "ping_thread_runs", "entry:top",
-            "entry:sendIq", "entry:below-group", "early_sender_runs", "refused_during_handshake", "stalled_write_runs", "stalled_write_ok", "s2c_flood_runs", "s2c_flood_frames", "real_runs", "real_ok", "wire_bytes_equal", "real:socket", "real:asyncore"]
+            "entry:sendIq", "entry:below-group", "stanzas_with_library_ids", "early_sender_runs", "refused_during_handshake", "stalled_write_runs", "stalled_write_ok", "s2c_flood_runs", "s2c_flood_frames", "real_runs", "real_ok", "wire_bytes_equal", "real:socket", "real:asyncore"]
 TIMEOUT = {"quick": 400, "thorough": 3600}
 
 YIELD_FILES = ("yowsup/layers/__init__.py", "yowsup/layers/noise/layer.py", "yowsup/layers/noise/layer_noise_segments.py",
                "yowsup/layers/coder/layer.py", "consonance/streams/segmented/blockingqueue.py", "consonance/transport.py",
-               "consonance/protocol.py", "yowsup/layers/protocol_iq/layer.py", "yowsup/layers/logger/layer.py")
+               "consonance/protocol.py", "yowsup/layers/protocol_iq/layer.py", "yowsup/layers/logger/layer.py", "yowsup/structs/protocolentity.py")
 
 
 class FastClock(object):
@@ -133,12 +133,21 @@ def one_run(acc, seed, tag, d):
     sent_lock = threading.Lock()
     pongs = {"n": 0}
     threads = []
+    lib_ids = {"n": 0}
+    from yowsup.structs import ProtocolEntity
 
     def sender(name, entry, n, rr):
         for i in range(n):
             sid = "%s-%d" % (name, i)
+            if i % 3 == 2:
+                # the id the library itself gives a stanza composed on this thread (as for every entity an application composes)
+                sid = ProtocolEntity("iq")._generateId(short=(i % 2 == 0))
+                lib_ids["n"] += 1
             node = payload_node(rr, sid)
             with sent_lock:
+                if sid in sent:
+                    errors.append((name, "DuplicateId", "the id %s composed on this thread was also given to a stanza of %s" % (sid, sent[sid])))
+                    return
                 sent[sid] = name
             ready = in_transport()
             try:
@@ -256,10 +265,14 @@ def one_run(acc, seed, tag, d):
         else:
             acc.inconc("%s: senders still running after 120 s" % tag)
         return
+    if errors and errors[0][1] == "DuplicateId":
+        acc.violation("two-stanzas-one-id", "%s (composed by %s): the two stanzas cannot be told apart, 'transmitted exactly once' cannot hold for both" % (errors[0][2], errors[0][0]), w)
+        return
     if errors:
         acc.violation("send-raises:%s" % errors[0][1], "a sender got %s: %s" % (errors[0][1], errors[0][2]), w)
         return
     acc.count("stanzas_sent", len(sent))
+    acc.count("stanzas_with_library_ids", lib_ids["n"])
     acc.count("refused_during_handshake", refused["n"])
     if flood_sent:
         # what the server sent during the run came up complete and in order
